@@ -323,3 +323,123 @@ Theorem C11_generated_path_agrees_with_routing :
   forall e, req_path e = PW.model.Routing.req_path (r_path_info e).
 Proof. intros e. symmetry. apply req_path_models_agree. Qed.
 Print Assumptions C11_generated_path_agrees_with_routing.
+
+(* ---- translator tie and links for the issuing side: the Digest challenge of
+   the built-in 401 page, poorwsgi/results.py unauthorized.  The hand model
+   is model/Challenge.v ([challenge cfg renv realm stale]: the text of the
+   WWW-Authenticate header, no header, or the RuntimeError for a missing
+   realm); gen/ChallengeGen.v is rewritten from the current source on every
+   check run by harness/py2v_challenge.py.  get_token of session.py is the
+   generated gen_get_token (C16) at the exact time [clock (q_time r)]; the
+   page text is the opaque [Page] of the three page arguments (its literal
+   is tied by C15); [err] is the `error` argument (any value: only logged). *)
+Require Import PW.lib.Py PW.lib.PyDigest PW.lib.PyChallenge PW.model.Challenge
+  PW.gen.TokenGen PW.proofs.TokenGenEq PW.gen.ChallengeGen
+  PW.proofs.ChallengeGenEq PW.proofs.ChallengeProofs.
+
+Theorem C11_generated_challenge_is_model :
+  forall Ht Ho Esc Page c r realm stale m u a err,
+    0 <= q_time r -> (forall T, a_timeout c = Some T -> 0 <= T) ->
+    gen_unauthorized Ho Esc (GTt Ht (q_time r)) Page
+      (inj_os (a_type c)) (PStr (q_secret r)) (PStr (q_client r))
+      (inj_to (a_timeout c)) (PStr (q_host r)) (inj_os (a_qop c))
+      (PStr (a_algorithm c)) (PStr m) (PStr u) (PStr a)
+      (inj_os realm) (PBool stale) err
+    = inj_outcome Esc Page m u a (challenge Ht Ho c r realm stale).
+Proof. exact gen_unauthorized_eq. Qed.
+Print Assumptions C11_generated_challenge_is_model.
+
+(* the defaults of unauthorized(req, realm=None, stale='', error=None) *)
+Theorem C11_generated_challenge_defaults :
+  gen_unauthorized_defaults = [inj_os None; PStr []; PNone]
+  /\ PyDigest.truthy (PStr []) = PyDigest.truthy (PBool false).
+Proof. split; reflexivity. Qed.
+Print Assumptions C11_generated_challenge_defaults.
+
+(* the nonce of a challenge issued at time q_time r is accepted by the
+   verification side (check_nonce of the gate, i.e. check_token) at every
+   time of the same or the following timeout window -- and at every time
+   when tokens do not expire (timeout None or 0); no assumption on the hash *)
+Theorem C11_issued_nonce_verifies :
+  forall Ht Ho c r realm stale h,
+    challenge Ht Ho c r realm stale = Returns (Some h) ->
+    exists rl nonce,
+      h = header_of c rl nonce (issued_opaque Ho r)
+          ++ (if stale then s_stale else []) /\
+      forall d e,
+        dget k_nonce d = Some nonce ->
+        c_secret e = q_secret r -> r_client e = q_client r ->
+        c_timeout e = a_timeout c ->
+        same_or_next_window (a_timeout c) (q_time r) (r_time e) ->
+        check_nonce Ht d e = Some true /\
+        check_token Ht nonce (c_secret e) (r_client e) (c_timeout e)
+                    (r_time e) = Some true.
+Proof. exact issued_nonce_verifies. Qed.
+Print Assumptions C11_issued_nonce_verifies.
+
+(* the opaque value of a challenge is the value check_credentials (and so
+   the gate) compares the client's opaque field with, for the same host *)
+Theorem C11_issued_opaque_verifies :
+  forall Ht Hh Ho Unq c r realm stale h,
+    challenge Ht Ho c r realm stale = Returns (Some h) ->
+    exists rl nonce,
+      h = header_of c rl nonce (issued_opaque Ho r)
+          ++ (if stale then s_stale else []) /\
+      forall d e,
+        r_host e = q_host r ->
+        (dget k_opaque d = Some (issued_opaque Ho r) ->
+         opt_eqb (dget k_opaque d) (Ho (r_host e)) = true) /\
+        (check_credentials Hh Ho Unq d e = true ->
+         dget k_opaque d = Some (issued_opaque Ho r)) /\
+        (forall hdr u, hdr = Some d -> gate Ht Hh Ho Unq hdr e = Run u ->
+         dget k_opaque d = Some (issued_opaque Ho r)).
+Proof. intros Ht Hh Ho Unq. exact (issued_opaque_verifies Ht Ho Hh Unq). Qed.
+Print Assumptions C11_issued_opaque_verifies.
+
+(* issuing never fails with ZeroDivisionError (timeout 0 means "no timeout") *)
+Theorem C11_challenge_never_divides_by_zero :
+  forall Ht Ho c r realm stale,
+    challenge Ht Ho c r realm stale <> Raises "ZeroDivisionError" [].
+Proof. exact challenge_total. Qed.
+Print Assumptions C11_challenge_never_divides_by_zero.
+
+(* the header text field by field (direct string statement): scheme, realm,
+   qop (iff configured non-empty), algorithm, nonce, opaque, stale=true (iff
+   asked), each as key="value", separated by commas *)
+Theorem C11_challenge_fields_in_order :
+  forall Ht Ho c r realm stale h,
+    challenge Ht Ho c r realm stale = Returns (Some h) ->
+    exists rl nonce,
+      realm = Some rl /\ issued_nonce Ht c r = Some nonce /\
+      h = s_Digest ++ [32] ++ field k_realm rl ++ [44] ++
+          (match a_qop c with
+           | Some q => if nonempty q then field k_qop q ++ [44] else []
+           | None => []
+           end) ++
+          field k_algorithm (a_algorithm c) ++ [44] ++
+          field k_nonce nonce ++ [44] ++
+          field k_opaque (issued_opaque Ho r) ++
+          (if stale then [44] ++ k_stale ++ [61] ++ s_true else []).
+Proof. exact challenge_fields_in_order. Qed.
+Print Assumptions C11_challenge_fields_in_order.
+
+(* ... and a concrete challenge (with and without qop / stale) read back by
+   the model of Request.authorization: the fields in that order, with the
+   issued values *)
+Theorem C11_challenge_parses_example :
+  parsed_fields (challenge (fakeH 84) (fakeH 79) (ex_cfg (Some (s2l "auth")))
+                           ex_renv (Some (s2l "users")) true)
+  = [ (k_realm, s2l "users"); (k_qop, s2l "auth");
+      (k_algorithm, s2l "SHA-256");
+      (k_nonce, fakeH 84 (s2l "secret1700000400agent"));
+      (k_opaque, fakeH 79 (s2l "example.org"));
+      (k_stale, s_true); (k_type, s_Digest) ]
+  /\
+  parsed_fields (challenge (fakeH 84) (fakeH 79) (ex_cfg None)
+                           ex_renv (Some (s2l "users")) false)
+  = [ (k_realm, s2l "users"); (k_algorithm, s2l "SHA-256");
+      (k_nonce, fakeH 84 (s2l "secret1700000400agent"));
+      (k_opaque, fakeH 79 (s2l "example.org"));
+      (k_type, s_Digest) ].
+Proof. exact challenge_parses_example. Qed.
+Print Assumptions C11_challenge_parses_example.
